@@ -31,4 +31,30 @@ def polOf (kind : Nat) (ε : Rat) (A : Nat) (mat : Nat → Nat → Rat) (tbl : Q
 def esarsaStepP (pol : QF → Nat → Nat → Rat) (γ α : Rat) (A : Nat) (q : QF) (s a s1 : Nat) (r : Rat) : QF :=
   esarsaStep γ α A (pol q) q s a s1 r
 
+/-! ## RLearning (src/MDP/Algorithms/RLearning.cpp) — modelled AS WRITTEN
+
+    futureBestValue = q_.row(s1).maxCoeff();
+    q_(s, a) += alpha_ * ( rew - rAvg_ + futureBestValue );
+    currBestValue = q_.row(s).maxCoeff();
+    if (checkEqualGeneral(q_(s, a), currBestValue)) rAvg_ += rho_ * ( rew + futureBestValue - currBestValue );
+
+  (Schwartz's R-learning has `… + futureBestValue - q_(s,a)` and `… - currBestValue - rAvg_`… see `Props/C11Policies`.) -/
+
+structure RL where
+  q : QF
+  ravg : Rat
+
+def rlStep (α ρ : Rat) (A : Nat) (st : RL) (s a s1 : Nat) (r : Rat) : RL :=
+  let fut := maxA A (st.q s1)
+  let q' := upd st.q s a (st.q s a + α * (r - st.ravg + fut))
+  let cur := maxA A (q' s)
+  if AITB.Pol.ceG (q' s a) cur then ⟨q', st.ravg + ρ * (r + fut - cur)⟩ else ⟨q', st.ravg⟩
+
+/-- the R-learning rule of the literature (Schwartz 1993; Sutton & Barto §10.3 form): both updates are increments TOWARDS a target -/
+def rlStepDoc (α ρ : Rat) (A : Nat) (st : RL) (s a s1 : Nat) (r : Rat) : RL :=
+  let fut := maxA A (st.q s1)
+  let q' := upd st.q s a (st.q s a + α * (r - st.ravg + fut - st.q s a))
+  let cur := maxA A (q' s)
+  if AITB.Pol.ceG (q' s a) cur then ⟨q', st.ravg + ρ * (r + fut - cur - st.ravg)⟩ else ⟨q', st.ravg⟩
+
 end AITB.Learn
